@@ -42,6 +42,108 @@ type C02Case struct {
 	World StmtWorld `json:"world"`
 	Rule  *dsl.Rule `json:"rule"`
 	Lay   []byte    `json:"lay,omitempty"`
+	// Huge: a forRange over a collection of Huge.N elements (the for statement is limited to
+	// 10^4 passes by gengine, forRange is not)
+	Huge *C02Huge `json:"huge,omitempty"`
+}
+
+type C02Huge struct {
+	N    int    `json:"n"`
+	Coll string `json:"coll"` // slice / array / map / local (a local bound to the injected slice)
+	Stop string `json:"stop"` // none / break / return / continue
+	K    int    `json:"k"`    // the element at which Stop applies
+	Mul  int64  `json:"mul"`
+}
+
+const c02HugeArr = 16390
+
+type c02Out struct{ N int64 }
+
+// the array is ranged as a field of a pointer-injected struct (forRange over a pointer to an
+// array is outside the statement semantics gengine documents)
+type c02BigHost struct{ Arr [c02HugeArr]int64 }
+
+// checkC02Huge: count, sum and stop position of a forRange over a big collection against the
+// directly computed values.
+func checkC02Huge(c *C02Case, x *Ctx) {
+	h := c.Huge
+	n := h.N
+	if h.Coll == "array" {
+		n = c02HugeArr
+	}
+	k := h.K % n
+	vals := make([]int64, n)
+	for i := range vals {
+		vals[i] = (int64(i)*h.Mul)%1000 - 300
+	}
+	out := &c02Out{}
+	inj := map[string]interface{}{"out": out}
+	coll, key := "big", "i"
+	switch h.Coll {
+	case "array":
+		bh := &c02BigHost{}
+		copy(bh.Arr[:], vals)
+		inj["H"] = bh
+		coll = "H.Arr"
+	case "map":
+		m := make(map[int64]int64, n)
+		for i, v := range vals {
+			m[int64(i)] = v
+		}
+		inj["big"] = m
+	default:
+		inj["big"] = vals
+	}
+	pre := ""
+	if h.Coll == "local" {
+		pre, coll = "  loc = big\n", "loc"
+	}
+	stop := ""
+	switch h.Stop {
+	case "break":
+		stop = fmt.Sprintf("    if %s == %d {\n      break\n    }\n", key, k)
+	case "return":
+		stop = fmt.Sprintf("    if %s == %d {\n      out.N = cnt\n      return sum\n    }\n", key, k)
+	case "continue":
+		stop = fmt.Sprintf("    if %s < %d {\n      continue\n    }\n", key, k)
+	}
+	text := fmt.Sprintf("rule \"prog\" \"d\" salience 1\nbegin\n  cnt = 0\n  sum = 0\n%s  forRange %s := %s {\n%s    cnt = cnt + 1\n    sum = sum + %s[%s]\n  }\n  out.N = cnt\n  return sum\nend\n", pre, key, coll, stop, coll, key)
+	var wantCnt, wantSum int64
+	for i, v := range vals {
+		if (h.Stop == "break" || h.Stop == "return") && i == k && h.Coll != "map" {
+			break
+		}
+		if h.Stop == "continue" && i < k {
+			continue
+		}
+		wantCnt++
+		wantSum += v
+	}
+	x.Class("huge-forrange:" + h.Coll + ":" + h.Stop)
+	if n > 16384 {
+		x.Class("huge-forrange-over-16384-elements")
+	}
+	x.NonTrivial()
+	rb, err := buildDSL(text, inj)
+	if err != nil {
+		x.Violation("compile", "generated text was rejected: %v\n%s", err, text)
+		return
+	}
+	got, returned, gerr, pan := runOne(rb, "prog")
+	if pan != "" || gerr != nil || !returned {
+		x.Violation("huge-forrange", "forRange over a %s of %d elements: err=%v panic=%q returned=%v\n%s", h.Coll, n, gerr, truncate(pan, 200), returned, text)
+		return
+	}
+	if h.Coll == "map" && (h.Stop == "break" || h.Stop == "return") {
+		// the position of key k in the iteration order is not determined: only the bounds are
+		if out.N < 0 || out.N >= int64(n) {
+			x.Violation("huge-forrange", "forRange over a map of %d entries with a %s at key %d counted %d passes\n%s", n, h.Stop, k, out.N, text)
+		}
+		return
+	}
+	if out.N != wantCnt || fmt.Sprint(got) != fmt.Sprint(wantSum) {
+		x.Violation("huge-forrange", "forRange over a %s of %d elements (%s at %d): %d passes and sum %v, want %d passes and sum %d\n%s", h.Coll, n, h.Stop, k, out.N, got, wantCnt, wantSum, text)
+	}
 }
 
 func copyStrMap(m map[string]int64) map[string]int64 {
@@ -745,9 +847,17 @@ func mapOrderFrom(observed []obs.Event) func(loop int, remaining []reflect.Value
 func init() {
 	register(&Prop{
 		ID:   "C02",
-		Rule: "one rule per case: statement trees (depth <= 4, <= 30 statements) over int/bool/string/float locals and an injected world (pointer struct with int64/uint64/float64/string/bool fields, slice, array, string-keyed map; directly injected slice, maps, pointer array): plain and compound assignments to locals, fields and elements, if with 0-3 else-if and optional else (conditions often simultaneously true), for loops with literal bounds <= 5 whose condition / step may be recording functions, forRange over slices, arrays and maps (possibly empty), break/continue under arbitrary if nesting inside loops, return (bare or with value) at the end of any block at any depth, reads of locals assigned only on some path, tr(n) observer calls everywhere; oracle = reference interpreter replaying the same program (map iteration order taken from the observed run): exact observer trace, returned flag and value, error-ness and the complete final host world must agree. Conditions are pure expressions or comparisons on a stateful observed counter nx() (every evaluation of a condition is visible in the trace and changes the next one). Non-trivial: the reference execution hit continue in a for, break in an inner loop, a return that skips later statements, an else-if/else branch, a compound assignment on an injected target, or a read of a local assigned in a nested block; distinct by case hash",
+		Rule: "one rule per case: statement trees (depth <= 4, <= 30 statements) over int/bool/string/float locals and an injected world (pointer struct with int64/uint64/float64/string/bool fields, slice, array, string-keyed map; directly injected slice, maps, pointer array): plain and compound assignments to locals, fields and elements, if with 0-3 else-if and optional else (conditions often simultaneously true), for loops with literal bounds <= 5 whose condition / step may be recording functions, forRange over slices, arrays and maps (possibly empty), break/continue under arbitrary if nesting inside loops, return (bare or with value) at the end of any block at any depth, reads of locals assigned only on some path, tr(n) observer calls everywhere; oracle = reference interpreter replaying the same program (map iteration order taken from the observed run): exact observer trace, returned flag and value, error-ness and the complete final host world must agree. 1% of the cases are a forRange over a slice, array, map or slice-valued local of 1000-120000 elements (16383/16384/16385/32768/65537 preferred) with an optional break/return/continue, checked against the directly computed pass count and sum. Conditions are pure expressions or comparisons on a stateful observed counter nx() (every evaluation of a condition is visible in the trace and changes the next one). Non-trivial: the reference execution hit continue in a for, break in an inner loop, a return that skips later statements, an else-if/else branch, a compound assignment on an injected target, or a read of a local assigned in a nested block; distinct by case hash",
 		New:  func() interface{} { return &C02Case{} },
 		Gen: func(t *rapid.T) interface{} {
+			if pct(t, "huge_forrange", 1) {
+				n := []int{16383, 16384, 16385, 32768, 65537, 0}[uni(t, "huge_n_kind", 0, 5)]
+				if n == 0 {
+					n = uni(t, "huge_n", 1000, 120000)
+				}
+				return &C02Case{Huge: &C02Huge{N: n, Coll: []string{"slice", "array", "map", "local"}[uni(t, "huge_coll", 0, 3)],
+					Stop: []string{"none", "none", "break", "return", "continue"}[uni(t, "huge_stop", 0, 4)], K: uni(t, "huge_k", 0, 1<<20), Mul: int64(uni(t, "huge_mul", 1, 997))}}
+			}
 			c := &C02Case{World: genStmtWorld(t)}
 			g := &stmtGen{t: t, def: map[string]bool{}, maybe: map[string]bool{}, budget: 30, collLocals: map[string]string{}}
 			g.eg = &exprGen{t: t, locals: map[byte][]string{}, faultAt: -1, parenP: 5}
@@ -764,6 +874,10 @@ func init() {
 		},
 		Check: func(ci interface{}, x *Ctx) {
 			c := ci.(*C02Case)
+			if c.Huge != nil {
+				checkC02Huge(c, x)
+				return
+			}
 			text, _ := dsl.PrintRules([]*dsl.Rule{c.Rule}, c.Lay)
 			if tooCostly(x, text) {
 				return
